@@ -390,6 +390,10 @@ pub async fn lookup_audit(
     source_port: u16,
     redirector_shared_state: &RedirectorSharedState,
 ) -> Result<AuditEntry> {
+    #[cfg(azure_guestproxyagent_verif)]
+    if let Some(r) = crate::verif::audit::lookup(source_port) {
+        return r;
+    }
     if let Ok(Some(bpf_object)) = redirector_shared_state.get_bpf_object().await {
         bpf_object.lock().unwrap().lookup_audit(source_port)
     } else {
@@ -401,6 +405,10 @@ pub async fn remove_audit(
     source_port: u16,
     redirector_shared_state: &RedirectorSharedState,
 ) -> Result<()> {
+    #[cfg(azure_guestproxyagent_verif)]
+    if let Some(r) = crate::verif::audit::remove(source_port) {
+        return r;
+    }
     if let Ok(Some(bpf_object)) = redirector_shared_state.get_bpf_object().await {
         bpf_object
             .lock()
